@@ -387,6 +387,10 @@ def member_variant(rng, P: gen.Profile, fam_scn: eng.Scn, name: str) -> eng.Scn:
     for L in list(s.listeners_ctor):
         if all(c.style == "conv" for c in s.cbs if c.provider == L) and rng.random() < 0.3:
             s.listeners_ctor.remove(L)
+        elif rng.random() < 0.06:
+            # this instance is constructed without a listener that provides a callback the class names explicitly: it
+            # must be rejected at construction (InvalidDefinition), whatever other instances of the class exist
+            s.listeners_ctor.remove(L)
     n = gen.gen_ops(rng, P, s, evs)
     ops = list(s.ops)
     for _ in range(rng.choice([0, 0, 1, 2])):
